@@ -97,14 +97,12 @@ func vh_C02_PrivateKeySign() {
 		opts = &Options{}
 		msg = vBlob("M")
 	case 3:
-		ctx = vBlobString("ctx")
-		vAssume(len(ctx) >= 1 && len(ctx) <= 255)
+		ctx = vCtxString()
 		opts = &Options{Context: ctx}
 		msg = vBlob("M")
 		variant = 1
 	case 4:
-		ctx = vBlobString("ctx")
-		vAssume(len(ctx) >= 1 && len(ctx) <= 255)
+		ctx = vCtxString()
 		opts = &Options{Hash: crypto.SHA512, Context: ctx}
 		msg = vBytes("digest", 64)
 		variant = 2
